@@ -463,10 +463,23 @@ def replay(S, rp, e, r, off, model, role):
     p0 = r.mem[("h", "p")] if ("h", "p") in r.mem else None
     if o in (32, 36) and len(words) > 1:
         tid = words[1]
-        if o == 36:
-            pre = le(4 << 16 | 21) + le(tid) + le(64) + le(0)
+        # the declaration that precedes the instruction realises the model's tracker entry for the id whose type decides a literal
+        # width (the result type of OpConstant / OpSpecConstant, the selector of OpSwitch): its kind and width come from the model
+        width_, signed_, float_ = 64, 0, (o == 32)
+        try:
+            tt = p0.fields[2].fields[0].fields if p0 is not None else None
+            if tt is not None and all(z3.is_expr(x) for x in tt):
+                k_ = z3.BitVecVal(tid, 32)
+                if z3.is_true(model.eval(z3.Select(tt[0], k_), model_completion=True)):
+                    float_ = z3.is_true(model.eval(z3.Select(tt[1], k_), model_completion=True))
+                    width_ = model.eval(z3.Select(tt[2], k_), model_completion=True).as_long()
+                    signed_ = 1 if z3.is_true(model.eval(z3.Select(tt[3], k_), model_completion=True)) else 0
+        except (AttributeError, IndexError, z3.Z3Exception):
+            pass
+        if not float_:
+            pre = le(4 << 16 | 21) + le(tid) + le(width_) + le(signed_)
         else:
-            pre = le(3 << 16 | 22) + le(tid) + le(64)
+            pre = le(3 << 16 | 22) + le(tid) + le(width_)
     hexb = HEADER + pre + "".join(le(w) for w in words)
     tail = (length - o) - 4 * n
     if 0 < tail < 4:
